@@ -18,7 +18,7 @@ import (
 //   L        0..15 (quick) / 0..23 (thorough): moves every following token across the refill points
 //   buffer   initial tokenizer buffer capacity 2 or 16 instead of 4096 (set through an in-package ParseOption on the
 //            real ParseWithOptions): with 2 the buffer is re-allocated (doubling) while a tag is read, with 16 live
-//            bytes are also moved down inside the same array; thorough adds the real capacity 4096 with L = 4040..4100
+//            bytes are also moved down inside the same array; thorough adds the real capacity 4096 with L = 4056..4099
 //   reader   everything at once / chunks of 5 bytes / one byte per Read
 //   values   V = 2 symbolic letters or digits; W = 1 byte of the C40 alphabet (markup-significant bytes, NUL, CR, LF,
 //            UTF-8 and invalid bytes) + 1 symbolic letter; U = 1 symbolic letter; T = 1 byte of the alphabet
@@ -92,7 +92,7 @@ func VerifC40_renderBuf() {
 	var L int
 	switch {
 	case bufcap == 4096:
-		L = 4040 + vfChoice("pad", 61)
+		L = 4056 + vfChoice("pad", 44)
 		vfAssume(chunk != 1)
 	case vfTier() > 0:
 		L = vfChoice("pad", 24)
